@@ -1,6 +1,6 @@
 from . import session
 
-FAMILIES = [('death', 1.0), ('disc', 0.8), ('zombie', 0.4)]
+FAMILIES = [('death', 1.0), ('disc', 0.8), ('zombie', 0.4), ('specdisc', 0.3)]
 
 def main(ctx):
     session.run(ctx, "C07", FAMILIES, quick_count=100, thorough_count=4000, prop_mod=session.PROP_MODS.get("C07"))
